@@ -137,7 +137,7 @@ def gamma_UNIFAC(x, T, interactions,
     if N_chemicals > 1:
         interactions = interactions.copy()
         x_sub = np.ones(N_chemicals)
-        for i, j in enumerate(index): x[j] = x_sub[i]
+        for i, j in enumerate(index): x_sub[i] = x[j]
         xsum = x_sub.sum()
         if xsum != 0: 
             x_sub /= xsum
